@@ -196,6 +196,11 @@ bad('c19-total-atm', 'C19', 'TOTAL', 'mulgrids.py', "            if destlayer ==
 bad('c10-pred', 'C10', 'PRED', 'mulgrids.py', "layer.bottom < col.surface])", "layer.bottom <= col.surface])")
 bad('c20-pair', 'C20', 'PAIR', 't2data.py', "            self.generatorlist = keepgens\n            self.generator = dict([((gen.block, gen.name), gen) for gen in self.generatorlist])\n", "            self.generatorlist = keepgens\n")
 
+bad('c01-echo', 'C01', 'ECHO', 't2data.py', "        if self.type == 'AUTOUGH2' and self.extra_precision:\n            # extra precision sections are echoed if they are also in the main file:\n            self.echo_extra_precision = any([section in self._sections for\n                                             section in self.extra_precision])\n", "")
+
+bad('c15-solverarg', 'C15', 'SOLVERARG', 't2thermo.py', "        def f(t): return sat(t[0]) - p", "        def f(t): return sat(t) - p")
+twin('c15-solverarg-twin', 'C15', 't2thermo.py', "        def f(t): return sat(t[0]) - p", "        def f(x):\n            x0 = x[0]\n            return sat(x0) - p")
+
 
 def _run_one(entry):
     i, pid, rule, kind, fname, old, new = entry
